@@ -25,6 +25,11 @@ theorem accountStop_tie (c : Char) : Parse.isAccountStop c = Params.accountStopC
   have : Params.accountStopChars.toList = ['\n', '\r', ';', ' ', '\t'] := by decide
   rw [this]; simp only [Parse.isAccountStop, List.contains_cons, List.contains_nil]; grind
 
+/-- `paren_str` (the transaction code): the text stops at `)` or at the end of the line -/
+theorem parenStrStop_tie (c : Char) : Parse.isParenStrStop c = Params.parenStrStopChars.toList.contains c := by
+  have : Params.parenStrStopChars.toList = [')', '\r', '\n'] := by decide
+  rw [this]; simp only [Parse.isParenStrStop, List.contains_cons, List.contains_nil]; grind
+
 /-- the terminator set of `posting_account`, the stop set of a lot note, of `till_line_ending_or_semi`, and the
 two punctuation characters of a number token, as literal character lists (the model spells them inline) -/
 theorem accountEndChars_tie : Params.accountEndChars.toList = ['\t', ';', '\r', '\n'] := by decide
